@@ -41,6 +41,7 @@ CLAUSES = ["C17 Parse accepts a non-boolean CEL rule or refuses a valid probe li
            "C17 stale condition observedGeneration passes",
            "C17 fieldsEqual passes on a missing field",
            "C17 probing changes the object"]
+# former known finding (fixed in /repo by 9b2e4f3); a recurrence is reported under the same identity
 SHADOWED = "C17 stale condition entry shadowed by an earlier entry of the same type passes"
 
 FLOATS = {}
@@ -295,7 +296,7 @@ def fixed():
         {"probes": [osp([], kind=("", "ConfigMap"))], "object": dep(status={"observedGeneration": 1})},
         {"probes": [osp([cond(), fe(".status.a", ".status.b"), cel(2)])],
          "object": dep(status={"observedGeneration": 2, "a": 1, "b": 1.0, "conditions": [avail(1)]})},
-        # duplicate condition type: the first entry decides, the stale second one is not seen
+        # regression corpus for the defect fixed by 9b2e4f3: duplicate condition type, the stale entry comes second
         {"probes": [osp([cond()])], "object": dep(status={"conditions": [avail(2), avail(1)]})},
         {"probes": [osp([cond()], kind=None)], "object": dep(status={"conditions": [avail(1), avail(2)]})},
         {"probes": [osp([cond()])], "object": dep(status={"conditions": ["x", avail(1)]})},
@@ -455,8 +456,8 @@ def check(run, tier, seed, replay=None):
         "(In/NotIn without values, Exists/DoesNotExist with values, unknown operator) are modelled",
         "objects are decoded the way the API machinery does (k8s util/json: integral literals -> int64, others -> float64); "
         "strings are ASCII; float64 values are opaque (equal iff same value, never equal to an int64)",
-        "monitor_sound assumes pairwise distinct condition types in status.conditions; outside that the stale-condition clause "
-        "is refuted in the model (C17_stale_condition_any_entry_refuted) and replayed on the real code (known finding)",
+        "'declares an observedGeneration' means a JSON integer; a float/string/null observedGeneration is ignored by "
+        "NestedInt64 (observation, not counted as a violation)",
         "purity is checked by reflect.DeepEqual of the probed deep copy against the original after every Probe call"]
     vlib.std_proof_stage(run, "C17")
     ok, blog = vlib.build_harness()
